@@ -1,0 +1,88 @@
+//go:build verif
+
+package fzf
+
+import "net"
+
+// Verification hooks (build tag verif) for the --listen endpoint: thin exported
+// wrappers around unexported functions of server.go / options.go. No logic beyond
+// building an httpServer whose channel and getHandler are stubs that record what
+// they were given.
+
+// VerifHTTPResult is what one call of handleHttpRequest did.
+type VerifHTTPResult struct {
+	Response    string   // bytes the server writes back
+	Delivered   bool     // an action list was sent on the action channel
+	ActionTypes []int    // its action types
+	ActionArgs  []string // and arguments
+	GetCalled   bool     // getHandler was called
+	Limit       int      // with these parameters
+	Offset      int
+}
+
+// VerifHandleHTTP serves one request read from conn with the given API key ("" = none).
+// state is what getHandler returns ("" = timeout); ready = the action channel has a free slot.
+func VerifHandleHTTP(conn net.Conn, key string, state string, ready bool) VerifHTTPResult {
+	res := VerifHTTPResult{}
+	size := 0
+	if ready {
+		size = 1
+	}
+	ch := make(chan []*action, size)
+	server := httpServer{
+		apiKey:        []byte(key),
+		actionChannel: ch,
+		getHandler: func(p getParams) string {
+			res.GetCalled = true
+			res.Limit = p.limit
+			res.Offset = p.offset
+			return state
+		},
+	}
+	res.Response = server.handleHttpRequest(conn)
+	select {
+	case acts := <-ch:
+		res.Delivered = true
+		for _, a := range acts {
+			res.ActionTypes = append(res.ActionTypes, int(a.t))
+			res.ActionArgs = append(res.ActionArgs, a.a)
+		}
+	default:
+	}
+	return res
+}
+
+// VerifHTTPParseActionList exposes parseSingleActionList (the parser a POST body goes through).
+func VerifHTTPParseActionList(str string) (types []int, args []string, errMsg string, failed bool) {
+	acts, err := parseSingleActionList(str)
+	if err != nil {
+		return nil, nil, err.Error(), true
+	}
+	for _, a := range acts {
+		types = append(types, int(a.t))
+		args = append(args, a.a)
+	}
+	return types, args, "", false
+}
+
+// VerifParseListenAddress exposes parseListenAddress.
+func VerifParseListenAddress(address string) (host string, port int, errMsg string) {
+	addr, err := parseListenAddress(address)
+	if err != nil {
+		return "", 0, err.Error()
+	}
+	return addr.host, addr.port, ""
+}
+
+// VerifStartHTTP calls startHttpServer for an already parsed address (FZF_API_KEY is read from the
+// environment by startHttpServer itself) and closes the listener again if one was opened.
+func VerifStartHTTP(host string, port int) (started bool, errMsg string) {
+	listener, _, err := startHttpServer(listenAddress{host, port}, make(chan []*action, 1), func(getParams) string { return "" })
+	if listener != nil {
+		listener.Close()
+	}
+	if err != nil {
+		return false, err.Error()
+	}
+	return true, ""
+}
